@@ -98,25 +98,9 @@ func (ms *MultiplexerSignal) addSignal(sig Signal) {
 	sig.setParentMuxSig(ms)
 
 	if ms.hasParentMsg() {
-		if sig.Kind() == SignalKindMultiplexer {
-			muxSig, err := sig.ToMultiplexer()
-			if err != nil {
-				panic(err)
-			}
-
-			for tmpSigID, tmpSig := range muxSig.signals.entries() {
-				ms.parentMsg.signals.add(tmpSigID, tmpSig)
-			}
-
-			for tmpName, tmpSigID := range muxSig.signalNames.entries() {
-				ms.parentMsg.signalNames.add(tmpName, tmpSigID)
-			}
-		}
-
-		ms.parentMsg.signals.add(id, sig)
-		ms.parentMsg.signalNames.add(name, id)
-
-		sig.setParentMsg(ms.parentMsg)
+		// registers the signal and, if it is a multiplexer,
+		// the signals it holds at any depth
+		ms.parentMsg.addSignal(sig)
 	}
 }
 
@@ -130,25 +114,9 @@ func (ms *MultiplexerSignal) removeSignal(sig Signal) {
 	sig.setParentMuxSig(nil)
 
 	if ms.hasParentMsg() {
-		if sig.Kind() == SignalKindMultiplexer {
-			muxSig, err := sig.ToMultiplexer()
-			if err != nil {
-				panic(err)
-			}
-
-			for _, tmpSigID := range muxSig.signals.getKeys() {
-				ms.parentMsg.signals.remove(tmpSigID)
-			}
-
-			for _, tmpName := range muxSig.signalNames.getKeys() {
-				ms.parentMsg.signalNames.remove(tmpName)
-			}
-		}
-
-		ms.parentMsg.signals.remove(id)
-		ms.parentMsg.signalNames.remove(name)
-
-		sig.setParentMsg(nil)
+		// unregisters the signal and, if it is a multiplexer,
+		// the signals it holds at any depth
+		ms.parentMsg.removeSignal(sig)
 	}
 }
 
